@@ -12,6 +12,22 @@ NOTE = ('Trusted: CrossHair\'s symbolic models of Python builtins, z3, the harne
         'INCOMPLETE and are not counted as discharged.')
 
 CLAIMED = {
+    'C17': ('symbolic execution of nested scope programs over a registry of all thread-scoped context managers; reference '
+            'nesting rules; observation from a second OS thread at every event (CrossHair/z3)', '§3 C17',
+            'Manager choice, arguments, depth, exception and catch level are symbolic; effective values must follow the '
+            'documented nesting rule at every point, everything must be restored after normal and exceptional exit, and a '
+            'second thread must only ever see defaults.'),
+    'C18': ('differential symbolic execution of functors / symbolized classes vs direct Python calls over symbolic call '
+            'shapes (CrossHair/z3)', '§3 C18',
+            'For 13 signatures and 3 classes, the number of positional arguments, keyword masks at construction and call time, '
+            'override flag, later rebind/assignment and call-time overrides are symbolic; result or error kind must equal the '
+            'direct call; reported arguments, generated signature, clone and JSON round trip must agree.'),
+    'C19': ('z3 query over (ast node class x permission set) generated from the validator source + symbolic nesting/scope/'
+            'fidelity checks through the real parse/evaluate (z3, CrossHair)', '§3 C19',
+            'The gating table is re-extracted from /repo on every run and the negated property is decided by z3 for every '
+            'ast node class; the context-free structure of the visitor is checked from source and every (context, construct, '
+            'permission set) production goes through the real parser; scope stacks can only narrow; program templates '
+            'agree with plain exec/eval.'),
     'C03': ('symbolic execution of every write path against typed containers with symbolic spec parameters and a typed object '
             'tree; reference schema predicate after every call (CrossHair/z3)', '§3 C03',
             'Typed pg.List/pg.Dict whose ranges and size bounds are unbounded symbolic integers, and an object tree covering the '
@@ -78,7 +94,7 @@ def main():
           thorough_cmd=f'./check {pid} --tier thorough',
           evidence_file=f'evidence/{pid}.json',
           replay_cmd_template=f'./check {pid} --replay {{path}}',
-          engine='chx',
+          engine='chx' if pid != 'C19' else 'chx+z3q',
           level_claimed=dict(category='model_checking', text=text + ' Bounded: nothing is claimed outside the bounds.',
                              design_ref=ref),
           level_note=NOTE,
